@@ -7,6 +7,7 @@ called, and accept/reject is compared with the oracle; after an accepted validat
 single-site service is compared with the site of its connected nodes.  The connect-time guard-rail is exercised
 through the constructor and through a later connect_interface().
 """
+import copy
 import os
 import contextlib
 import random
@@ -686,7 +687,58 @@ def judge(ctx, desc, topo, handles):
     # ---- the same slice after serialize + load (what an orchestrator validates) gets the same verdict
     if exp == obs and obs in ('accept', 'reject') and (RELOAD_ALWAYS[0] or ctx.rng.random() < 0.34):
         reload_and_validate(ctx, desc, topo, exp, wit, suffix)
+    # ---- the slice is edited after it was validated (a node moves to another site) and validated again
+    if exp == obs and obs in ('accept', 'reject') and (RELOAD_ALWAYS[0] or ctx.rng.random() < 0.25):
+        move_and_revalidate(ctx, desc, topo, suffix)
     return obs
+
+
+def move_and_revalidate(ctx, desc, topo, suffix):
+    """validate() looks at the slice as it is NOW: after a first validation one VM is moved to another site (sites that the
+    first validation recorded on services are cleared, so that only the constraint tables decide) and the verdict must be
+    the oracle's verdict for the moved slice."""
+    from fim.user.model_element import TopologyException
+    vms = [nd for nd in desc.get('nodes') or [] if nd.get('via') == 'add_node' and nd.get('ntype') == 'VM' and
+           nd.get('site_state', 'set') == 'set' and nd.get('components')]
+    if not vms:
+        return
+    nd = vms[ctx.rng.randrange(len(vms))]
+    new_site = [x for x in SITES if x != nd['site']][ctx.rng.randrange(len(SITES) - 1)]
+    d2 = copy.deepcopy(desc)
+    for x in d2['nodes']:
+        if x['name'] == nd['name']:
+            x['site'] = new_site
+    res2 = R.evaluate(d2)
+    if res2['undetermined']:
+        return
+    declared = {sv['name'] for sv in desc.get('services') or [] if sv.get('declared') is not None}
+    try:
+        topo.nodes[nd['name']].set_property('site', new_site)
+        for name, svc in topo.network_services.items():
+            if name not in declared and svc.site is not None:
+                svc.set_property('site', None)
+    except Exception as e:
+        ctx.count('revalidate:edit-refused')
+        return
+    ctx.count('validate-calls:after-moving-a-node')
+    try:
+        topo.validate()
+        obs2, msg2 = 'accept', None
+    except TopologyException as e:
+        obs2, msg2 = 'reject', str(e)
+    except Exception as e:
+        obs2, msg2 = 'crash', f'{type(e).__name__}: {e}'
+    exp2 = 'reject' if res2['failures'] else 'accept'
+    if obs2 == exp2:
+        ctx.count('agree-after-move:' + exp2)
+    elif obs2 == 'crash' and exp2 == 'reject':
+        ctx.count('revalidate:invalid-slice-rejected-by-other-exception')
+    else:
+        ctx.violation(f'C10/verdict-after-moving-a-node-differs:{exp2}->{obs2}' + suffix,
+                      'validate() succeeds iff every constraint is met by the slice as it is now (a node was moved to another site '
+                      'after an earlier validation)',
+                      {'description': short(d2), 'moved': nd['name'], 'to': new_site, 'expected': exp2, 'observed': obs2,
+                       'message': (msg2 or '')[:300], 'failing-clauses': [{k: f[k] for k in ('clause', 'subject', 'stype', 'detail')} for f in res2['failures']]})
 
 
 RELOAD_ALWAYS = [False]
